@@ -11,9 +11,14 @@
 (* checkpoints; every complete one is evaluated by the contract machine,   *)
 (* checked against the contracts on the model, and printed for replay on   *)
 (* the real ParserState.                                                   *)
+(* Prims selects the primitive symbols: "push" (a FRESH literal each time, *)
+(* so a wrong restoration is always visible), "drop", and the matching     *)
+(* family "pusha", "pushb", "stra", "strb", "peek", "pop", "matchpeek",    *)
+(* "matchpop", "slice01", "sliceneg" (which need inputs: every string over *)
+(* {a, b} up to InputLen is evaluated for every program).                  *)
 (***************************************************************************)
 EXTENDS ParserStateMachine, TLC, Json
-CONSTANTS MaxSyms, MaxDepth, Closers
+CONSTANTS MaxSyms, MaxDepth, Closers, Prims, InputLen
 VARIABLES frames, n, pushes
 
 vars == <<frames, n, pushes>>
@@ -41,12 +46,22 @@ Top == frames[Len(frames)]
 AddItem(it, dead) ==
   frames' = [frames EXCEPT ![Len(frames)] = [items |-> Append(@.items, it), dead |-> @.dead \/ dead]]
 
-Push == /\ n < MaxSyms /\ ~Top.dead
+PrimItem(x) ==
+  CASE x = "drop"      -> [op |-> "drop"]
+    [] x = "pusha"     -> [op |-> "pushlit", s |-> <<97>>]
+    [] x = "pushb"     -> [op |-> "pushlit", s |-> <<98>>]
+    [] x = "stra"      -> [op |-> "str", s |-> <<97>>]
+    [] x = "strb"      -> [op |-> "str", s |-> <<98>>]
+    [] x = "slice01"   -> [op |-> "peekslice", lo |-> 0, hi |-> 1, open |-> FALSE, dir |-> "b2t"]
+    [] x = "sliceneg"  -> [op |-> "peekslice", lo |-> -2, hi |-> 0, open |-> TRUE, dir |-> "t2b"]
+    [] OTHER           -> [op |-> x]        \* peek, pop, matchpeek, matchpop
+
+Push == /\ "push" \in Prims /\ n < MaxSyms /\ ~Top.dead
         /\ AddItem([op |-> "pushlit", s |-> <<97 + pushes>>], FALSE)
         /\ pushes' = pushes + 1 /\ n' = n + 1
-Drop == /\ n < MaxSyms /\ ~Top.dead
-        /\ AddItem([op |-> "drop"], FALSE)
-        /\ UNCHANGED pushes /\ n' = n + 1
+Prim(x) == /\ x # "push" /\ n < MaxSyms /\ ~Top.dead
+           /\ AddItem(PrimItem(x), FALSE)
+           /\ UNCHANGED pushes /\ n' = n + 1
 Open == /\ n + 1 < MaxSyms /\ ~Top.dead /\ Len(frames) <= MaxDepth
         /\ frames' = Append(frames, Frame0)
         /\ UNCHANGED pushes /\ n' = n + 1
@@ -60,25 +75,35 @@ Close(c) ==
   /\ UNCHANGED pushes /\ n' = n + 1
 
 Init == frames = <<Frame0>> /\ n = 0 /\ pushes = 0
-Next == Push \/ Drop \/ Open \/ \E c \in Closers : Close(c)
+Next == Push \/ (\E x \in Prims : Prim(x)) \/ Open \/ \E c \in Closers : Close(c)
 Spec == Init /\ [][Next]_vars
+
+RECURSIVE Strs(_)
+Strs(k) == IF k = 0 THEN {<<>>} ELSE {<<>>} \cup { <<x>> \o t : x \in {97, 98}, t \in Strs(k - 1) }
+Inputs == Strs(InputLen)
 
 Complete == Len(frames) = 1 /\ n >= 1
 Prog == Chain(frames[1].items)
-Out == Run(<<>>, Prog, St0)
+Out(inp) == Run(inp, Prog, St0)
 
 \* ---- contracts on the model.  The wrapped calls are checked where they stand: the last item of the
 \* outermost chain, started from the state the items before it left.
-Before == Run(<<>>, Chain(SubSeq(frames[1].items, 1, Len(frames[1].items) - 1)), St0)
+Before(inp) == Run(inp, Chain(SubSeq(frames[1].items, 1, Len(frames[1].items) - 1)), St0)
 LastItem == frames[1].items[Len(frames[1].items)]
-LastOut == Run(<<>>, LastItem, Before.st)
+LastOut(inp) == Run(inp, LastItem, Before(inp).st)
 SameVisible(s, t) == s.pos = t.pos /\ s.q = t.q /\ s.cur = t.cur
 NestedAllOrNothing ==
-  (Complete /\ Before.k = "ok" /\ LastItem.op \in {"seq", "restore"}) => (LastOut.k = "err" => SameVisible(LastOut.st, Before.st))
+  (Complete /\ LastItem.op \in {"seq", "restore"}) =>
+     \A inp \in Inputs : (Before(inp).k = "ok" /\ LastOut(inp).k = "err") => SameVisible(LastOut(inp).st, Before(inp).st)
 NestedLookaheadNeutral ==
-  (Complete /\ Before.k = "ok" /\ LastItem.op = "look") => (LastOut.k \in {"ok", "err"} => SameVisible(LastOut.st, Before.st))
-NoSnapshotLeft == Complete => (Out.k \in {"ok", "err"} => Out.st.saved = <<>>)
+  (Complete /\ LastItem.op = "look") =>
+     \A inp \in Inputs : (Before(inp).k = "ok" /\ LastOut(inp).k \in {"ok", "err"}) => SameVisible(LastOut(inp).st, Before(inp).st)
+\* a matching primitive that fails does not move
+PrimFailsInPlace ==
+  (Complete /\ LastItem.op \in {"str", "peek", "matchpeek", "peekslice"}) =>
+     \A inp \in Inputs : (Before(inp).k = "ok" /\ LastOut(inp).k = "err") => LastOut(inp).st = Before(inp).st
+NoSnapshotLeft == Complete => \A inp \in Inputs : (Out(inp).k \in {"ok", "err"} => Out(inp).st.saved = <<>>)
 
 Emit == Complete =>
-          PrintT(ToJson([prog |-> Prog, cases |-> { [inp |-> <<>>, exp |-> Observable(<<>>, Out)] }]))
+          PrintT(ToJson([prog |-> Prog, cases |-> { [inp |-> inp, exp |-> Observable(inp, Out(inp))] : inp \in Inputs }]))
 ===============================================================================
